@@ -24,7 +24,7 @@ func init() {
 			"non-trivial = at least two rings/members whose envelopes intersect, or a ring with a self-contact; distinct by the canonical candidate text",
 		Assumptions:      []string{"lattice inputs: the oracle (verif/exact: ring simplicity, <=1 common point per ring pair, containment, nesting, interior connectedness by two independent criteria, member interiors/edges via the arrangement) is exact", "oracle inconsistency between its two connectedness criteria => case skipped and counted"},
 		MinNontrivial:    500,
-		RequiredMonitors: []string{"oracle-vs-validate", "repr-invariance", "simple", "ring-closed", "decoder-gate", "nonfinite", "concrete-entry"},
+		RequiredMonitors: []string{"oracle-vs-validate", "repr-invariance", "simple", "ring-closed", "decoder-gate", "nonfinite", "collection-gate", "concrete-entry"},
 		Run:              runAll,
 	})
 }
@@ -517,6 +517,27 @@ func judge(k *run.K, c candidate, nreps int, allStartsDirs bool) {
 		k.Count("representations", 1)
 	}
 	decoderGate(k, g0, v.OK, class)
+	collectionGate(k, g0, v.OK, class)
+}
+
+// collectionGate: a GeometryCollection is valid iff every member is, at any position and depth.
+func collectionGate(k *run.K, g geom.Geometry, valid bool, class string) {
+	pt := geom.NewPointXY(0, 0).AsGeometry()
+	ls := geom.NewLineStringXY(0, 0, 1, 1).AsGeometry()
+	gc := func(ms ...geom.Geometry) geom.Geometry { return geom.NewGeometryCollection(ms).AsGeometry() }
+	ws := []geom.Geometry{gc(g), gc(pt, g), gc(g, pt), gc(pt, ls, g), gc(gc(pt, g)), gc(ls, gc(pt, gc(g)), pt)}
+	w := ws[k.Rng.Intn(len(ws))]
+	var e, ec error
+	if k.Lib("nopanic", func() { e = w.Validate(); ec = w.MustAsGeometryCollection().Validate() }) {
+		return
+	}
+	k.CheckClass("collection-gate", class, (e == nil) == valid && (ec == nil) == valid, "Validate()=%v / %v for a collection whose member has validity %v: %s", e, ec, valid, w.AsText())
+	var de error
+	wkb := w.AsBinary()
+	if k.Lib("nopanic", func() { _, de = geom.UnmarshalWKB(wkb) }) {
+		return
+	}
+	k.CheckClass("collection-gate", class, (de == nil) == valid, "UnmarshalWKB=%v for a collection whose member has validity %v: %s", de, valid, w.AsText())
 }
 
 func ruleKind(v exact.Verdict) string {
